@@ -3,6 +3,7 @@ package main
 import (
 	"fmt"
 	"go/token"
+	"go/types"
 	"strconv"
 	"strings"
 
@@ -15,6 +16,7 @@ import (
 func (P *Program) checkFrame(fn *ssa.Function, depth int) []string {
 	var bad []string
 	var local func(x ssa.Value) bool
+	phiSeen := map[*ssa.Phi]bool{}
 	local = func(x ssa.Value) bool {
 		switch a := x.(type) {
 		case *ssa.Alloc, *ssa.MakeMap, *ssa.MakeSlice:
@@ -25,6 +27,44 @@ func (P *Program) checkFrame(fn *ssa.Function, depth int) []string {
 			return local(a.X)
 		case *ssa.Slice:
 			return local(a.X)
+		case *ssa.Phi:
+			if phiSeen[a] {
+				return true
+			}
+			phiSeen[a] = true
+			for _, e := range a.Edges {
+				if c, isConst := e.(*ssa.Const); isConst && c.IsNil() {
+					continue
+				}
+				if !local(e) {
+					return false
+				}
+			}
+			return true
+		case *ssa.Call:
+			// append(local, ...) is local: same backing array or a fresh one
+			if bi, ok := a.Call.Value.(*ssa.Builtin); ok && bi.Name() == "append" {
+				if c, isConst := a.Call.Args[0].(*ssa.Const); isConst && c.IsNil() {
+					return true
+				}
+				return local(a.Call.Args[0])
+			}
+			// appender-style callee: its contract confines its writes to argument objects that are
+			// local here; its slice result lies in such an object or in fresh memory (assumed)
+			if callee := a.Call.StaticCallee(); callee != nil {
+				if ct := P.contractFor(callee); ct != nil && len(ct.Mods) > 0 && ct.ResultInArg {
+					for _, m := range ct.Mods {
+						if !strings.HasPrefix(m.Object, "arg") {
+							return false
+						}
+						k, err := strconv.Atoi(m.Object[3:])
+						if err != nil || k >= len(a.Call.Args) || !local(a.Call.Args[k]) {
+							return false
+						}
+					}
+					return true
+				}
+			}
 		}
 		return false
 	}
@@ -64,6 +104,13 @@ func (P *Program) checkFrame(fn *ssa.Function, depth int) []string {
 			}
 		}
 		if callee == nil {
+			for _, k := range []string{fieldFuncVarKey(c.Value), globalFuncVarKey(c.Value)} {
+				if k != "" {
+					if fct := P.db.Contracts[k]; fct != nil && fct.ModNothing {
+						return
+					}
+				}
+			}
 			bad = append(bad, pos(p)+": dynamic call")
 			return
 		}
@@ -76,11 +123,17 @@ func (P *Program) checkFrame(fn *ssa.Function, depth int) []string {
 			if len(ct.Mods) > 0 {
 				ok := true
 				for _, m := range ct.Mods {
-					if m.Object == "" || !strings.HasPrefix(m.Object, "arg") {
+					obj := m.Object
+					if obj == "" {
+						// "younger argK": only objects at least as young as a local allocation,
+						// i.e. that allocation and what the callee allocates
+						obj = m.Younger
+					}
+					if obj == "" || !strings.HasPrefix(obj, "arg") {
 						ok = false
 						break
 					}
-					k, err := strconv.Atoi(m.Object[3:])
+					k, err := strconv.Atoi(obj[3:])
 					if err != nil || k >= len(c.Args) || !local(c.Args[k]) {
 						ok = false
 						break
@@ -166,6 +219,12 @@ func (P *Program) ghostMod(fn *ssa.Function, stack map[*ssa.Function]bool) map[s
 			out[k] = true
 		}
 	}
+	// the function's own `sets` are applied at every call of it, whatever its body reaches
+	if ct != nil {
+		for _, s := range ct.Sets {
+			out[s.Var] = true
+		}
+	}
 	call := func(c *ssa.CallCommon) {
 		if _, ok := c.Value.(*ssa.Builtin); ok {
 			return
@@ -230,4 +289,187 @@ func mentions(src, ident string) bool {
 
 func isIdentChar(c byte) bool {
 	return c == '_' || (c >= 'a' && c <= 'z') || (c >= 'A' && c <= 'Z') || (c >= '0' && c <= '9')
+}
+
+// checkModFrame justifies a frame made only of "modifies fields ..." and kinds-only "modifies kinds ..."
+// clauses against the body, syntactically: every store goes through memory allocated here, or through
+// a field address T.f that is listed, or (map updates, append, copy) into a heap kind that is listed;
+// every callee has a frame that is contained in this one. Conservative. Returns nil when the frame has
+// object/younger clauses (those stay assumed).
+func (P *Program) checkModFrame(fn *ssa.Function, ct *Contract, mapKey func(*types.Map) (string, string), leafKinds func(types.Type) []string) (bad []string, checkable bool) {
+	fields := map[string]bool{}
+	kinds := map[string]bool{}
+	neg := false
+	for _, m := range ct.Mods {
+		if m.Object != "" || m.Younger != "" {
+			return nil, false
+		}
+		for _, f := range m.Fields {
+			fields[f] = true
+		}
+		for _, k := range m.Kinds {
+			if strings.HasPrefix(k, "!") {
+				neg = true
+			}
+			kinds[k] = true
+		}
+	}
+	if neg || len(fields) == 0 {
+		// frames without a fields clause predate this check and stay assumed (reported as such)
+		return nil, false
+	}
+	var local func(x ssa.Value) bool
+	seen := map[ssa.Value]bool{}
+	local = func(x ssa.Value) bool {
+		switch a := x.(type) {
+		case *ssa.Alloc, *ssa.MakeMap, *ssa.MakeSlice:
+			return true
+		case *ssa.FieldAddr:
+			return local(a.X)
+		case *ssa.IndexAddr:
+			return local(a.X)
+		case *ssa.Slice:
+			return local(a.X)
+		case *ssa.Phi:
+			if seen[a] {
+				return true
+			}
+			seen[a] = true
+			for _, e := range a.Edges {
+				if !local(e) {
+					return false
+				}
+			}
+			return true
+		}
+		return false
+	}
+	pos := func(p token.Pos) string {
+		pp := fn.Prog.Fset.Position(p)
+		return fmt.Sprintf("%s:%d", shortFile(pp.Filename), pp.Line)
+	}
+	fieldName := func(fa *ssa.FieldAddr) string {
+		pt, ok := fa.X.Type().Underlying().(*types.Pointer)
+		if !ok {
+			return ""
+		}
+		st, ok := pt.Elem().Underlying().(*types.Struct)
+		if !ok {
+			return ""
+		}
+		tn := types.TypeString(pt.Elem(), func(p *types.Package) string {
+			if fn.Pkg != nil && p == fn.Pkg.Pkg {
+				return ""
+			}
+			return p.Name()
+		})
+		return tn + "." + st.Field(fa.Field).Name()
+	}
+	allKinds := func(t types.Type) bool {
+		for _, k := range leafKinds(t) {
+			if !kinds[k] {
+				return false
+			}
+		}
+		return true
+	}
+	var walk func(f *ssa.Function, depth int, via string)
+	call := func(f *ssa.Function, c *ssa.CallCommon, p token.Pos, depth int, via string) {
+		if bi, ok := c.Value.(*ssa.Builtin); ok {
+			switch bi.Name() {
+			case "append", "copy":
+				if !local(c.Args[0]) {
+					if k, isConst := c.Args[0].(*ssa.Const); isConst && k.IsNil() {
+						return
+					}
+					if sl, ok := c.Args[0].Type().Underlying().(*types.Slice); ok && allKinds(sl.Elem()) {
+						return
+					}
+					bad = append(bad, via+pos(p)+": "+bi.Name()+" into a slice not allocated here and of a kind not listed")
+				}
+			case "delete", "clear":
+				if mt, ok := c.Args[0].Type().Underlying().(*types.Map); ok && !local(c.Args[0]) {
+					dk, vk := mapKey(mt)
+					if !kinds[dk] || !kinds[vk] {
+						bad = append(bad, via+pos(p)+": "+bi.Name()+" on a map whose kind is not listed: "+dk)
+					}
+				}
+			}
+			return
+		}
+		if c.IsInvoke() {
+			ict := P.db.Contracts[ifaceMethodKey(c)]
+			if ict == nil || !ict.ModNothing {
+				bad = append(bad, via+pos(p)+": interface call without a frame-free contract: "+ifaceMethodKey(c))
+			}
+			return
+		}
+		callee := c.StaticCallee()
+		if callee == nil {
+			bad = append(bad, via+pos(p)+": dynamic call")
+			return
+		}
+		if cct := P.contractFor(callee); cct != nil && (cct.ModNothing || len(cct.Mods) > 0) {
+			if cct.ModNothing {
+				return
+			}
+			for _, m := range cct.Mods {
+				if m.Object != "" || m.Younger != "" {
+					bad = append(bad, via+pos(p)+": callee frame has object/younger clauses: "+fnKey(callee))
+					return
+				}
+				for _, f2 := range m.Fields {
+					if !fields[f2] {
+						bad = append(bad, via+pos(p)+": callee "+shortKey(fnKey(callee))+" writes field "+f2+" which is not listed")
+					}
+				}
+				for _, k2 := range m.Kinds {
+					if !kinds[k2] {
+						bad = append(bad, via+pos(p)+": callee "+shortKey(fnKey(callee))+" writes kind "+k2+" which is not listed")
+					}
+				}
+			}
+			return
+		}
+		if callee.Blocks != nil && P.inRepo(callee) && depth < 4 {
+			walk(callee, depth+1, via+shortKey(fnKey(callee))+" -> ")
+			return
+		}
+		bad = append(bad, via+pos(p)+": uncontracted callee: "+fnKey(callee))
+	}
+	walk = func(f *ssa.Function, depth int, via string) {
+		for _, b := range f.Blocks {
+			for _, in := range b.Instrs {
+				switch i := in.(type) {
+				case *ssa.Store:
+					if local(i.Addr) {
+						continue
+					}
+					if fa, ok := i.Addr.(*ssa.FieldAddr); ok && fields[fieldName(fa)] {
+						continue
+					}
+					bad = append(bad, via+pos(i.Pos())+": store outside the listed fields")
+				case *ssa.MapUpdate:
+					if local(i.Map) {
+						continue
+					}
+					mt := i.Map.Type().Underlying().(*types.Map)
+					dk, vk := mapKey(mt)
+					if !kinds[dk] || !kinds[vk] {
+						bad = append(bad, via+pos(i.Pos())+": update of a map whose kind is not listed: "+dk)
+					}
+				case *ssa.Call:
+					call(f, &i.Call, i.Pos(), depth, via)
+				case *ssa.Defer:
+					call(f, &i.Call, i.Pos(), depth, via)
+				case *ssa.Go:
+					bad = append(bad, via+pos(i.Pos())+": go statement")
+				case *ssa.Send:
+					bad = append(bad, via+pos(i.Pos())+": channel send")
+				}
+			}
+		}
+	}
+	walk(fn, 0, "")
+	return bad, true
 }
